@@ -124,7 +124,8 @@ def check_arbitration(pairs):
         stacks = []
         for idx, (own, other) in enumerate(pairs):
             own &= ~(1 << 48) & ONES64
-            other &= ~(1 << 48) & ONES64
+            # the contender's frame may carry the reserved bit as 1: it reads as 0 (property statement), so the decision is
+            # the one for the value without it
             stk = w.stack("s%d" % idx)
             addr = 0x10 + (idx % 100)
             ca = stk.add_ca("c", own, addr, bypass=True)
@@ -134,10 +135,12 @@ def check_arbitration(pairs):
             # only this stack is to see the contender: deliver directly to it
             stk.rx(simbus.mkframe(R.mk_id(6, 0, 0xEE, 255, addr), R.name_bytes(other)))
             keeps = ca.state == State.NORMAL and ca.device_address == addr
+            wire = other
+            other &= ~(1 << 48) & ONES64
             want_keep = other >= own
             if keeps != want_keep:
-                return n, ("arbitration-order", "CA with NAME 0x%016X on address %d received a claim from NAME 0x%016X (numerically %s): it %s "
-                           "the address" % (own, addr, other, "lower" if other < own else ("equal" if other == own else "higher"),
+                return n, ("arbitration-order", "CA with NAME 0x%016X on address %d received a claim with NAME bytes 0x%016X (reserved bit "
+                           "reading as 0: numerically %s): it %s the address" % (own, addr, wire, "lower" if other < own else ("equal" if other == own else "higher"),
                                             "kept" if keeps else "gave up"))
     finally:
         w.close()
@@ -158,7 +161,8 @@ class C15:
             "boundary combinations and single bits, plus a 2^19-element stride sample whose offset depends on VERIF_SEED "
             "(quick) or all 2^29 identifiers (thorough); NAME: every field swept over its full range with the other fields "
             "all-zero and all-ones, all 64 single-bit values, all 3^10 {min,mid,max} field tuples, ordering of adjacent and "
-            "random pairs, the arbitration decision of an operational CA for NAME pairs whose bytes order them in opposite ways, and Hypothesis draws of random 64-bit values/identifiers; every block is non-trivial; distinct = "
+            "random pairs, the arbitration decision of an operational CA for NAME pairs whose bytes order them in opposite ways "
+            "(contender frames with the reserved bit 0 and 1), and Hypothesis draws of random 64-bit values/identifiers; every block is non-trivial; distinct = "
             "distinct blocks; 'subruns' counts the individual values checked")
     ASSUMPTIONS = [
         "constructor arguments are in range (the Name constructor documents ValueError otherwise)",
@@ -286,6 +290,8 @@ class C15:
             pairs += [(base, base), (base, base + 1), (base + 1, base), (0, 1), (1, 0), (ONES64 & ~(1 << 48), (ONES64 & ~(1 << 48)) - 1),
                       (0x00000000000000FF, 0x0000000000000100), (0x0000000000000100, 0x00000000000000FF),
                       (0x8000000000000001, 0x0000000000000002), (0x0000000000000002, 0x8000000000000001)]
+            # the same decisions when the contender's frame carries the reserved bit as 1
+            pairs += [(a, b | (1 << 48)) for (a, b) in pairs]
             pairs = pairs[p["part"]::4]
             n, fail = check_arbitration(pairs)
         elif k == "rand":
@@ -300,7 +306,8 @@ class C15:
                 n2, fail = check_order(pairs)
                 n += n2
             if fail is None:
-                n2, fail = check_arbitration([(v ^ (1 << b2), v ^ (1 << b1)) for v, b1, b2 in p["pairs"][:2]])
+                n2, fail = check_arbitration([(v ^ (1 << b2), (v ^ (1 << b1)) | ((idx % 2) << 48))
+                                              for idx, (v, b1, b2) in enumerate(p["pairs"][:2])])
                 n += n2
         else:
             raise ValueError(k)
